@@ -59,6 +59,8 @@ def rfields(rnd, depth=0):
 
 
 def mkreg(rnd):
+    if rnd.random() < .06:      # nested names that are joined to the same submodule name
+        return csr.Register({"a": {"b__c": csr.Field(action.R, 1)}, "a__b": {"c": csr.Field(action.RW, 2)}}, access="rw")
     return csr.Register(rfields(rnd), access="rw")
 
 
@@ -96,6 +98,18 @@ def make(kind, rnd):
                 if rnd.random() < .3:
                     kw["offset"] = rnd.randrange(0, 64) * (dw // b.granularity)
                 b.add(f"r{i}", mkreg(rnd), **kw); scopes.append(sc)
+        if rnd.random() < .2:
+            # legal names that are joined to the same submodule name
+            try:
+                if rnd.random() < .5:
+                    b.add("mux", mkreg(rnd)); scopes.append(["mux"])
+                else:
+                    with b.Cluster("a"):
+                        with b.Index(0):
+                            b.add("x", mkreg(rnd))
+                    b.add("a__0__x", mkreg(rnd)); scopes.append(["a/0/x", "a__0__x"])
+            except ValueError:
+                pass
         mm = b.as_memory_map()
         return csr.Bridge(mm), [], ("bridge", dw, scopes), mm
     if kind == "csr.Decoder":
